@@ -217,7 +217,10 @@ package state
 //@ panics none
 //@ requires j != nil && j.dirties != nil
 //@ modifies j.entries, elems(j.entries), mapof(j.dirties)
-//@ ensures [appended] len(j.entries) == old(len(j.entries)) + 1      // (the parameter is called `entry`, a contract keyword: its value cannot be named, engine_requests/C08.md R2)
+//@ ensures [appended] len(j.entries) == old(len(j.entries)) + 1
+//@ ensures [appended-value] j.entries[len(j.entries) - 1] == entry      // (`entry` as a plain name: engine update 7a152a2, engine_requests/C08.md R2)
+//@ ensures [dirties-kept] j.dirties == old(j.dirties)
+//@ ensures [journal-array] base(j.entries) == old(base(j.entries)) || fresh(j.entries)
 
 // ---------------------------------------------------------------------------------------------------------------
 // The main address of a record: a function of its consensus public key (crypto is trusted to be a deterministic,
@@ -635,13 +638,7 @@ package state
 //@ ensures [absent-means-no-entry] !present ==> forall a: int :: { elems(v.Delegations)[a] } off(v.Delegations) <= a && a < off(v.Delegations) + len(v.Delegations) ==>
 //@     c08AsDlg(elems(v.Delegations)[a]).Delegator != d
 
-// The delegator's account side (state objects, account journal, account trie) — clause 4 territory; here only its frame:
-// it touches nothing of the validator side. Trusted (getStateObject reads the account trie and decodes RLP).
-//@ func (*StateDB).UpdateDelegator props C08
-//@ trusted
-//@ requires st != nil
-//@ modifies st.dbErr, mapof(st.stateObjects), all(stateObject.delegations), all(stateObject.dirtyDlgs), all(stateObject.data),
-//@     st.journal.entries, elems(st.journal.entries), mapof(st.journal.dirties)        // (address lists / hashes it builds are fresh arrays)
+// (the delegator's account side — UpdateDelegator — is under a verified contract at the end of this file)
 
 // UpdateDelegation(d, val, tokenChanged): the inductive step of "Token == SelfToken + Σ delegations.Token, Stake == SelfStake + Σ delegations.Stake,
 // each delegation's Stake == floor(Token / unit)": d's entry moves by tokenChanged, its stake is recomputed, the record's totals move by
@@ -651,6 +648,12 @@ package state
 //@ panics none
 //@ requires c08StateWF(st) && st.journal != nil && val != nil && c08RecOK(st, val) && c08Counted(c08Stat(st), val) && c10ValAmountsOK(val)
 //@ requires c08Sorted(val.Delegations) && c08DlgsOK(val.Delegations) && params.StakeUint != nil && big(params.StakeUint) > 0
+// the delegator's account side (UpdateDelegator): the account journal exists; the delegator's cached account object, if any, is well formed
+//@ requires st.stateObjects != nil && c08JournalOK(st.journal)
+//@ requires [delegator-account-ok] in(d, st.stateObjects) && st.stateObjects[d] != nil ==> c08AcctOK(st, st.stateObjects[d], d)
+// (aliasing, for [account-balance] only: neither the amount nor the account's total is one of the statistics counters UpdateValidator adds to)
+//@ requires [amounts-separate] (tokenChanged != nil ==> c08SepBig(tokenChanged)) &&
+//@     (in(d, st.stateObjects) && st.stateObjects[d] != nil ==> c08SepBig(st.stateObjects[d].data.DelegationBalance))
 //@ let s0 = val.Delegations
 //@ let p = c08Pos(elems(val.Delegations), off(val.Delegations), len(val.Delegations), d)
 //@ let present = c08At(val.Delegations, c08Pos(elems(val.Delegations), off(val.Delegations), len(val.Delegations), d), d)
@@ -670,6 +673,261 @@ package state
 //@ // ensures [flag] acts ==> (result3 == params.Create <==> !present) && (result3 == params.Delete <==> (present && big(result1.Token) == 0 && big(result1.Stake) == 0)) && result3 != params.Noop
 //@ ensures [stored] acts ==> c08HasObj(st, c08AddrOf(val)) && c08Obj(st, c08AddrOf(val)) == result0
 //@ ensures [list-sorted] acts ==> c08Sorted(result0.Delegations) && c08DlgsOK(result0.Delegations)
+// Clause 4 — the account side is edited with the SAME decision as the validator side: afterwards the delegator's account (when it exists)
+// lists this validator iff the validator-side edit was not a Delete, and its total of delegated tokens moved by tokenChanged.
+// (That the validator side lists d iff the flag is Create / Update is UpdateDelegationFrom#[create-at] / [update] / [delete-*]; the flag as a
+//  function of the OLD membership is the NOT-DECIDED clause above.)
+//@ ensures [account-side] acts && c08Live(st, d) ==> (c08AMember(c08Acct(st, d).delegations, c08AddrOf(val)) <==> result3 != params.Delete) && c08AcctOK(st, c08Acct(st, d), d)
+//@ ensures [account-balance] acts && old(c08Live(st, d)) ==> c08Acct(st, d) == old(st.stateObjects[d]) &&
+//@     big(c08Acct(st, d).data.DelegationBalance) == old(big(st.stateObjects[d].data.DelegationBalance)) + old(big(tokenChanged))
+//@ ensures [account-noop] !acts ==> mapval(st.stateObjects) == old(mapval(st.stateObjects)) && len(st.journal.entries) == old(len(st.journal.entries))
 // Clause 5 — `val` is what the journal keeps as the old value (validatorUpdateChange.oldVal): its delegation list must not change.
 // (PartialCopy used to share the array that UpdateDelegationFrom(newVal) edits in place; repaired in /repo b2db95c.)
 //@ ensures [old-record-list-intact] val.Delegations == old(val.Delegations) && elems(val.Delegations) == old(elems(val.Delegations))
+
+// ---------------------------------------------------------------------------------------------------------------
+// Clause 4 of C08 — "delegator accounts and validators agree on who delegates to whom": the DELEGATOR ACCOUNT side.
+// An account's `delegations` (common.SortedAddresses) lists the validators it delegates to, sorted by address number, duplicate free.
+// The list is never edited in place: every change builds a NEW array and journals the OLD slice (delegationsChange.prevdlgs), whose
+// revert re-installs it. So the array a journal entry refers to must never be written again ("old list not written").
+// Lists are described over ABSOLUTE indices of the backing array, like the validator side above.
+
+//@ effectfree github.com/youchainhq/go-youchain/rlp.EncodeToBytes encoding/json.Marshal fmt.Sprintf github.com/youchainhq/go-youchain/crypto.Keccak256Hash
+//@ effectfree github.com/youchainhq/go-youchain/rlp.DecodeBytes
+
+//@ spec func c08JournalOK(j: *journal) bool = j != nil && j.dirties != nil
+// The in-line Account struct `so.data`: a callee's `modifies so.data.F` havocs the WHOLE struct value at call sites (engine_requests/C08.md R9),
+// so the functions that write one field say explicitly that the others are kept.
+//@ spec func c08DataKeptButDlgs(so: *stateObject) bool = so.data.Nonce == old(so.data.Nonce) && so.data.Balance == old(so.data.Balance) &&
+//@     so.data.CodeHash == old(so.data.CodeHash) && so.data.DelegationBalance == old(so.data.DelegationBalance)
+//@ spec func c08DataKeptButBal(so: *stateObject) bool = so.data.Nonce == old(so.data.Nonce) && so.data.Balance == old(so.data.Balance) &&
+//@     so.data.CodeHash == old(so.data.CodeHash) && so.data.DelegationsHash == old(so.data.DelegationsHash)
+//@ spec func c08LastEntry(j: *journal) journalEntry = j.entries[len(j.entries) - 1]
+//@ spec func c08LastDlgs(j: *journal) delegationsChange = unbox(j.entries[len(j.entries) - 1], delegationsChange)
+
+// updateDelegations(dlgs): exactly one delegationsChange holding the CURRENT slice (same array, offset, length) and the current hash is
+// journalled, then dlgs is installed and the account marked dirty. The current array is not written ([frame]: it is not in `modifies`),
+// and dlgs must live in another array: otherwise the entry just journalled would alias the list that later updates edit.
+//@ func (*stateObject).updateDelegations props C08
+//@ panics none
+//@ requires so != nil && so.db != nil && c08JournalOK(so.db.journal)
+//@ requires [new-list-in-own-array] len(so.delegations) == 0 || len(dlgs) == 0 || base(dlgs) != base(so.delegations)
+//@ let j = so.db.journal
+//@ let prev = so.delegations
+//@ let prevhash = so.data.DelegationsHash
+//@ assume after call github.com/youchainhq/go-youchain/rlp.EncodeToBytes: [address-list-encodes] ret1 == nil
+//@ modifies so.dirtyDlgs, so.delegations, so.data.DelegationsHash, j.entries, elems(j.entries), mapof(j.dirties)
+//@ ensures [journalled] len(j.entries) == old(len(j.entries)) + 1 && hastype(c08LastEntry(j), delegationsChange) &&
+//@     c08LastDlgs(j).account != nil && *c08LastDlgs(j).account == so.address &&
+//@     c08LastDlgs(j).prevdlgs == prev && c08LastDlgs(j).prevhash == prevhash
+//@ ensures [installed] so.delegations == dlgs && so.dirtyDlgs
+//@ ensures [empty-list-no-hash] len(dlgs) == 0 ==> len(so.data.DelegationsHash) == 0
+//@ ensures [other-account-data-kept] c08DataKeptButDlgs(so)
+//@ ensures [journal-ok] c08JournalOK(j) && (base(j.entries) == old(base(j.entries)) || fresh(j.entries))
+
+// Live account lookup (cached case; the cache-miss path reads the account trie and decodes RLP — C13 / C14 — whose callees are
+// effect-free / trusted-pure here, results unconstrained). Same clauses as C09 proves for these two functions; verified again for C08.
+//@ func (Trie).TryGet props C08
+//@ trusted
+//@ pure
+//@ spec func c08Live(s: *StateDB, a: common.Address) bool = in(a, s.stateObjects) && s.stateObjects[a] != nil && !s.stateObjects[a].deleted
+
+// what newObject builds on a cache miss
+//@ spec func c08FreshAcct(st: *StateDB, o: *stateObject, a: common.Address) bool =
+//@     o.db == st && o.address == a && !o.deleted && isnil(o.delegations) && o.data.DelegationBalance != nil
+//@ func (*StateDB).getDeletedStateObject props C08
+//@ panics none
+//@ requires st != nil && st.stateObjects != nil
+//@ modifies st.dbErr, mapof(st.stateObjects)
+//@ ensures [cached] old(in(addr, st.stateObjects) && st.stateObjects[addr] != nil) ==>
+//@     result == old(st.stateObjects[addr]) && mapdom(st.stateObjects) == old(mapdom(st.stateObjects)) && mapval(st.stateObjects) == old(mapval(st.stateObjects)) && st.dbErr == old(st.dbErr)
+// cache miss: a fresh object of this state, keyed by addr, with a delegation balance and a not-yet-loaded delegation list (newObject), or nil
+//@ ensures [loaded] result != nil && !old(in(addr, st.stateObjects) && st.stateObjects[addr] != nil) ==>
+//@     fresh(result) && in(addr, st.stateObjects) && st.stateObjects[addr] == result && c08FreshAcct(st, result, addr)
+//@ ensures [miss] result == nil ==> mapdom(st.stateObjects) == old(mapdom(st.stateObjects)) && mapval(st.stateObjects) == old(mapval(st.stateObjects))
+
+//@ func (*StateDB).getStateObject props C08
+//@ panics none
+//@ requires st != nil && st.stateObjects != nil
+//@ modifies st.dbErr, mapof(st.stateObjects)
+//@ ensures [live] old(c08Live(st, addr)) ==>
+//@     stateObject == old(st.stateObjects[addr]) && mapdom(st.stateObjects) == old(mapdom(st.stateObjects)) && mapval(st.stateObjects) == old(mapval(st.stateObjects)) && st.dbErr == old(st.dbErr)
+//@ ensures [loaded] stateObject != nil && !old(in(addr, st.stateObjects) && st.stateObjects[addr] != nil) ==>
+//@     fresh(stateObject) && in(addr, st.stateObjects) && st.stateObjects[addr] == stateObject && c08FreshAcct(st, stateObject, addr)
+//@ ensures [found-is-cached] stateObject != nil ==> in(addr, st.stateObjects) && st.stateObjects[addr] == stateObject && !stateObject.deleted
+//@ ensures [cached-untouched] old(in(addr, st.stateObjects) && st.stateObjects[addr] != nil) ==> mapdom(st.stateObjects) == old(mapdom(st.stateObjects)) && mapval(st.stateObjects) == old(mapval(st.stateObjects))
+//@ ensures [none] stateObject == nil ==> mapdom(st.stateObjects) == old(mapdom(st.stateObjects)) && mapval(st.stateObjects) == old(mapval(st.stateObjects))
+
+// revert of a delegation-list update: the journalled slice (same array, offset, length) and hash are the account's again. Nothing writes
+// the array ([frame], [restored-content]); with UpdateDelegationTo#[old-list-not-written] / #frame[Elems:common.Address] / #[new-list-in-own-array]
+// (nobody writes the journalled array between journalling and revert) the restored CONTENT is the content at journalling time: the list
+// the account had before the update.
+//@ func (delegationsChange).revert props C08
+//@ panics none
+//@ requires s != nil && s.stateObjects != nil && ch.account != nil && c08Live(s, *ch.account)
+//@ let obj = s.stateObjects[*ch.account]
+//@ modifies s.dbErr, mapof(s.stateObjects), obj.data.DelegationsHash, obj.delegations
+//@ ensures [restored] obj.delegations == ch.prevdlgs && obj.data.DelegationsHash == ch.prevhash
+//@ ensures [restored-content] elems(obj.delegations) == old(elems(ch.prevdlgs))
+//@ ensures [objects-kept] mapdom(s.stateObjects) == old(mapdom(s.stateObjects)) && mapval(s.stateObjects) == old(mapval(s.stateObjects)) && s.dbErr == old(s.dbErr)
+
+// loadDelegations: a no-op once the list is loaded; otherwise the list is decoded from the node database (trie database, RLP: C13 / C14)
+// into a fresh array. ASSUMED (body not verified): the stored list is sorted (it was written by updateDelegations, whose lists are sorted).
+//@ func (*stateObject).loadDelegations props C08
+//@ nobody
+//@ requires so != nil
+//@ modifies so.delegations
+//@ ensures !old(isnil(so.delegations)) ==> so.delegations == old(so.delegations)
+//@ ensures old(isnil(so.delegations)) ==> fresh(so.delegations) && c08ASorted(so.delegations)
+//@ ensures !isnil(so.delegations) && len(so.delegations) < 2^59
+
+// Search position of x in s / is x in the list (at its lower bound)?
+//@ spec func c08APosIn(s: common.SortedAddresses, x: common.Address) int = c08APos(elems(s), off(s), len(s), x)
+//@ spec func c08AHas(s: common.SortedAddresses, x: common.Address) bool = c08APosIn(s, x) < len(s) && elems(s)[off(s) + c08APosIn(s, x)] == x
+// (the bound variable has a name no clause uses: spec functions are expanded textually and an argument mentioning `a` would be captured, engine_requests/C08.md R8)
+//@ spec func c08AMember(s: common.SortedAddresses, x: common.Address) bool = exists c08m: int :: off(s) <= c08m && c08m < off(s) + len(s) && elems(s)[c08m] == x
+// The list a journalled update started from: what the last journal entry (a delegationsChange) holds.
+//@ spec func c08JPrev(so: *stateObject) common.SortedAddresses = unbox(so.db.journal.entries[len(so.db.journal.entries) - 1], delegationsChange).prevdlgs
+
+// UpdateDelegationTo(validator, delete): the sorted-list edit on the delegator account. L = the account's list once loaded (the entry value
+// when it was loaded already), p = lower bound of validator in L; n0 = journal length before.
+//   validator in L & !delete, or not in L & delete -> no journal entry, the account's list is L itself (same slice), nothing else changes
+//   not in L & !delete -> one entry holding L; new list = L with validator inserted at p
+//   in L & delete      -> one entry holding L; new list = L without cell p
+// MEMORY: the new list lives in an array allocated by this call; L's array — the one the journal entry refers to — is never written:
+// [old-list-not-written] (as an assert before each updateDelegations call and as a postcondition), #frame[Elems:common.Address]
+// (no `elems(...)` in `modifies`), [new-list-in-own-array], and the precondition [new-list-in-own-array] of updateDelegations at both call sites.
+//@ func (*stateObject).UpdateDelegationTo props C08
+//@ panics none
+//@ requires so != nil && so.db != nil && c08JournalOK(so.db.journal)
+//@ requires !isnil(so.delegations) ==> c08ASorted(so.delegations)
+// an array of 20-byte elements holds fewer than 2^63 / 20 of them (the engine's slice well-formedness knows only off + cap <= 2^63 - 1):
+// without it `len + 1` (e.g. as a capacity hint) could wrap
+//@ assume [address-array-fits-memory] len(so.delegations) < 2^59
+//@ let j = so.db.journal
+//@ let n0 = len(so.db.journal.entries)
+//@ let s0 = so.delegations
+//@ modifies so.dirtyDlgs, so.delegations, so.data.DelegationsHash, j.entries, elems(j.entries), mapof(j.dirties)
+//@ assert before call (*stateObject).updateDelegations: [old-list-not-written] elems(s0) == old(elems(s0))
+//@ assert before call (*stateObject).updateDelegations: [new-list-in-own-array] base(a1) != base(a0.delegations)
+//@ ensures [one-entry-at-most] len(j.entries) == n0 || len(j.entries) == n0 + 1
+//@ ensures [other-account-data-kept] c08DataKeptButDlgs(so)
+//@ ensures [loaded-list-kept] !isnil(s0) ==> (len(j.entries) == n0 ==> so.delegations == s0) && (len(j.entries) == n0 + 1 ==> c08JPrev(so) == s0)
+//@ ensures [old-list-not-written] elems(s0) == old(elems(s0))
+//@ ensures [noop] len(j.entries) == n0 ==> (c08AHas(so.delegations, validator) <==> !delete) &&
+//@     so.dirtyDlgs == old(so.dirtyDlgs) && so.data.DelegationsHash == old(so.data.DelegationsHash) && elems(j.entries) == old(elems(j.entries))
+//@ ensures [journalled] len(j.entries) == n0 + 1 ==> (c08AHas(c08JPrev(so), validator) <==> delete) && hastype(c08LastEntry(j), delegationsChange) &&
+//@     c08LastDlgs(j).account != nil && *c08LastDlgs(j).account == so.address && c08LastDlgs(j).prevhash == old(so.data.DelegationsHash) && so.dirtyDlgs
+//@ ensures [new-list-in-own-array] len(j.entries) == n0 + 1 ==> fresh(so.delegations) && base(so.delegations) != base(c08JPrev(so))
+//@ ensures [insert-len] len(j.entries) == n0 + 1 && !delete ==> len(so.delegations) == len(c08JPrev(so)) + 1
+//@ ensures [insert-at] len(j.entries) == n0 + 1 && !delete ==> elems(so.delegations)[off(so.delegations) + c08APosIn(c08JPrev(so), validator)] == validator
+//@ ensures [insert-before] len(j.entries) == n0 + 1 && !delete ==> forall a: int :: { elems(so.delegations)[a] }
+//@     off(so.delegations) <= a && a < off(so.delegations) + c08APosIn(c08JPrev(so), validator) ==>
+//@     elems(so.delegations)[a] == elems(c08JPrev(so))[a - off(so.delegations) + off(c08JPrev(so))]
+//@ ensures [insert-after] len(j.entries) == n0 + 1 && !delete ==> forall a: int :: { elems(so.delegations)[a] }
+//@     off(so.delegations) + c08APosIn(c08JPrev(so), validator) < a && a <= off(so.delegations) + len(c08JPrev(so)) ==>
+//@     elems(so.delegations)[a] == elems(c08JPrev(so))[a - off(so.delegations) + off(c08JPrev(so)) - 1]
+//@ ensures [delete-len] len(j.entries) == n0 + 1 && delete ==> len(so.delegations) == len(c08JPrev(so)) - 1
+//@ ensures [delete-before] len(j.entries) == n0 + 1 && delete ==> forall a: int :: { elems(so.delegations)[a] }
+//@     off(so.delegations) <= a && a < off(so.delegations) + c08APosIn(c08JPrev(so), validator) ==>
+//@     elems(so.delegations)[a] == elems(c08JPrev(so))[a - off(so.delegations) + off(c08JPrev(so))]
+//@ ensures [delete-after] len(j.entries) == n0 + 1 && delete ==> forall a: int :: { elems(so.delegations)[a] }
+//@     off(so.delegations) + c08APosIn(c08JPrev(so), validator) <= a && a < off(so.delegations) + len(c08JPrev(so)) - 1 ==>
+//@     elems(so.delegations)[a] == elems(c08JPrev(so))[a - off(so.delegations) + off(c08JPrev(so)) + 1]
+//@ ensures [sorted] c08ASorted(so.delegations) && !isnil(so.delegations)
+// the set view — "who delegates to whom", account side: afterwards the account lists `validator` iff !delete
+// (stepping stones first: the search position is the lower bound in the sorted list L, whose content the later allocations did not touch)
+//@ ensures [lower-bound-noop] len(j.entries) == n0 ==> c08AIsLB(so.delegations, validator, c08APosIn(so.delegations, validator))
+//@ ensures [lower-bound] len(j.entries) == n0 + 1 ==> c08ASorted(c08JPrev(so)) && c08AIsLB(c08JPrev(so), validator, c08APosIn(c08JPrev(so), validator))
+//@ ensures [not-listed] delete ==> forall a: int :: { elems(so.delegations)[a] } off(so.delegations) <= a && a < off(so.delegations) + len(so.delegations) ==> elems(so.delegations)[a] != validator
+//@ ensures [listed] !delete ==> c08AMember(so.delegations, validator)
+//@ ensures [membership] c08AMember(so.delegations, validator) <==> !delete
+// … and every OTHER address is listed afterwards iff it was listed in L (the same facts as the cell-by-cell clauses, keyed on L's cells, then as sets)
+//@ ensures [insert-keeps-old] len(j.entries) == n0 + 1 && !delete ==> forall b: int :: { elems(c08JPrev(so))[b] } off(c08JPrev(so)) <= b && b < off(c08JPrev(so)) + len(c08JPrev(so)) ==>
+//@     elems(so.delegations)[if b < off(c08JPrev(so)) + c08APosIn(c08JPrev(so), validator) then b - off(c08JPrev(so)) + off(so.delegations) else b - off(c08JPrev(so)) + off(so.delegations) + 1] == elems(c08JPrev(so))[b]
+//@ ensures [delete-keeps-others] len(j.entries) == n0 + 1 && delete ==> forall b: int :: { elems(c08JPrev(so))[b] } off(c08JPrev(so)) <= b && b < off(c08JPrev(so)) + len(c08JPrev(so)) && b != off(c08JPrev(so)) + c08APosIn(c08JPrev(so), validator) ==>
+//@     elems(so.delegations)[if b < off(c08JPrev(so)) + c08APosIn(c08JPrev(so), validator) then b - off(c08JPrev(so)) + off(so.delegations) else b - off(c08JPrev(so)) + off(so.delegations) - 1] == elems(c08JPrev(so))[b]
+//@ ensures [insert-from-old] len(j.entries) == n0 + 1 && !delete ==> forall a: int :: { elems(so.delegations)[a] }
+//@     off(so.delegations) <= a && a < off(so.delegations) + len(so.delegations) && a != off(so.delegations) + c08APosIn(c08JPrev(so), validator) ==>
+//@     elems(so.delegations)[a] == elems(c08JPrev(so))[if a < off(so.delegations) + c08APosIn(c08JPrev(so), validator) then a - off(so.delegations) + off(c08JPrev(so)) else a - off(so.delegations) + off(c08JPrev(so)) - 1]
+//@ ensures [delete-from-old] len(j.entries) == n0 + 1 && delete ==> forall a: int :: { elems(so.delegations)[a] }
+//@     off(so.delegations) <= a && a < off(so.delegations) + len(so.delegations) ==>
+//@     elems(so.delegations)[a] == elems(c08JPrev(so))[if a < off(so.delegations) + c08APosIn(c08JPrev(so), validator) then a - off(so.delegations) + off(c08JPrev(so)) else a - off(so.delegations) + off(c08JPrev(so)) + 1]
+//@ ensures [insert-adds-only-validator] len(j.entries) == n0 + 1 && !delete ==> forall a: int :: { elems(so.delegations)[a] }
+//@     off(so.delegations) <= a && a < off(so.delegations) + len(so.delegations) && a != off(so.delegations) + c08APosIn(c08JPrev(so), validator) ==> c08AMember(c08JPrev(so), elems(so.delegations)[a])
+//@ ensures [delete-adds-nothing] len(j.entries) == n0 + 1 && delete ==> forall a: int :: { elems(so.delegations)[a] }
+//@     off(so.delegations) <= a && a < off(so.delegations) + len(so.delegations) ==> c08AMember(c08JPrev(so), elems(so.delegations)[a])
+//@ ensures [insert-removes-nothing-before] len(j.entries) == n0 + 1 && !delete ==> forall b: int :: { elems(c08JPrev(so))[b] }
+//@     off(c08JPrev(so)) <= b && b < off(c08JPrev(so)) + c08APosIn(c08JPrev(so), validator) ==> c08AMember(so.delegations, elems(c08JPrev(so))[b])
+//@ ensures [insert-removes-nothing-after] len(j.entries) == n0 + 1 && !delete ==> forall b: int :: { elems(c08JPrev(so))[b] }
+//@     off(c08JPrev(so)) + c08APosIn(c08JPrev(so), validator) <= b && b < off(c08JPrev(so)) + len(c08JPrev(so)) ==> c08AMember(so.delegations, elems(c08JPrev(so))[b])
+//@ ensures [delete-removes-only-validator] len(j.entries) == n0 + 1 && delete ==> forall b: int :: { elems(c08JPrev(so))[b] }
+//@     off(c08JPrev(so)) <= b && b < off(c08JPrev(so)) + len(c08JPrev(so)) && b != off(c08JPrev(so)) + c08APosIn(c08JPrev(so), validator) ==> c08AMember(so.delegations, elems(c08JPrev(so))[b])
+//@ ensures [journal-ok] c08JournalOK(j) && (base(j.entries) == old(base(j.entries)) || fresh(j.entries))
+
+// --- the account's total of delegated tokens (DelegationBalance) ----------------------------------------------------------------
+//@ spec func c08LastBal(j: *journal) delegationBalanceChange = unbox(j.entries[len(j.entries) - 1], delegationBalanceChange)
+
+//@ func (*stateObject).SetDelegationBalance props C08
+//@ panics none
+//@ requires so != nil && so.db != nil && c08JournalOK(so.db.journal) && so.data.DelegationBalance != nil
+//@ let j = so.db.journal
+//@ modifies so.data.DelegationBalance, j.entries, elems(j.entries), mapof(j.dirties)
+//@ ensures [journalled] len(j.entries) == old(len(j.entries)) + 1 && hastype(c08LastEntry(j), delegationBalanceChange) &&
+//@     c08LastBal(j).account != nil && *c08LastBal(j).account == so.address &&
+//@     fresh(c08LastBal(j).prev) && big(c08LastBal(j).prev) == old(big(so.data.DelegationBalance))
+//@ ensures [set] so.data.DelegationBalance == value
+//@ ensures [other-account-data-kept] c08DataKeptButBal(so)
+//@ ensures [journal-ok] c08JournalOK(j) && (base(j.entries) == old(base(j.entries)) || fresh(j.entries))
+
+// AddDelegationBalance(value): the total moves by exactly `value` (a fresh big integer: the journalled previous value is never mutated).
+//@ func (*stateObject).AddDelegationBalance props C08
+//@ panics none
+//@ requires so != nil && so.db != nil && c08JournalOK(so.db.journal) && so.data.DelegationBalance != nil && value != nil
+//@ let j = so.db.journal
+//@ modifies so.data.DelegationBalance, j.entries, elems(j.entries), mapof(j.dirties)
+//@ ensures [moved-by-value] fresh(so.data.DelegationBalance) && big(so.data.DelegationBalance) == old(big(so.data.DelegationBalance)) + old(big(value))
+//@ ensures [other-account-data-kept] c08DataKeptButBal(so)
+//@ ensures [journalled] len(j.entries) == old(len(j.entries)) + 1 && hastype(c08LastEntry(j), delegationBalanceChange) &&
+//@     c08LastBal(j).account != nil && *c08LastBal(j).account == so.address &&
+//@     fresh(c08LastBal(j).prev) && big(c08LastBal(j).prev) == old(big(so.data.DelegationBalance))
+//@ ensures [journal-ok] c08JournalOK(j) && (base(j.entries) == old(base(j.entries)) || fresh(j.entries))
+
+//@ func (delegationBalanceChange).revert props C08
+//@ panics none
+//@ requires s != nil && s.stateObjects != nil && ch.account != nil && c08Live(s, *ch.account)
+//@ let obj = s.stateObjects[*ch.account]
+//@ modifies s.dbErr, mapof(s.stateObjects), obj.data.DelegationBalance
+//@ ensures [restored] obj.data.DelegationBalance == ch.prev && big(obj.data.DelegationBalance) == old(big(ch.prev))
+//@ ensures [objects-kept] mapdom(s.stateObjects) == old(mapdom(s.stateObjects)) && mapval(s.stateObjects) == old(mapval(s.stateObjects)) && s.dbErr == old(s.dbErr)
+
+// --- UpdateDelegator: the account side of one delegation change ---------------------------------------------------------------------
+// A cached account as the delegation functions expect it: it belongs to this state, has a total, and its list (once loaded) is sorted.
+//@ spec func c08AcctOK(st: *StateDB, o: *stateObject, a: common.Address) bool =
+//@     o.db == st && o.address == a && o.data.DelegationBalance != nil && (!isnil(o.delegations) ==> c08ASorted(o.delegations))
+// The account of `a` after the call (the cached object, or the one just loaded).
+//@ spec func c08Acct(st: *StateDB, a: common.Address) *stateObject = st.stateObjects[a]
+
+// UpdateDelegator(addr, toValidator, delta, delete): when the account exists (is live after the lookup), its list contains toValidator
+// iff !delete, stays sorted, is replaced — never edited in place — when it changes, and its total of delegated tokens moves by delta;
+// a cached account object is the same object afterwards. When the account does not exist nothing is journalled.
+//@ func (*StateDB).UpdateDelegator props C08
+//@ panics none
+//@ requires st != nil && st.stateObjects != nil && c08JournalOK(st.journal) && delta != nil
+//@ requires [account-ok] in(addr, st.stateObjects) && st.stateObjects[addr] != nil ==> c08AcctOK(st, st.stateObjects[addr], addr)
+//@ let obj = st.stateObjects[addr]
+//@ let j = st.journal
+//@ let n0 = len(st.journal.entries)
+//@ let s0 = st.stateObjects[addr].delegations
+//@ modifies st.dbErr, mapof(st.stateObjects), obj.delegations, obj.dirtyDlgs, obj.data.DelegationsHash, obj.data.DelegationBalance,
+//@     j.entries, elems(j.entries), mapof(j.dirties)
+//@ ensures [same-object] old(c08Live(st, addr)) ==> c08Acct(st, addr) == obj
+//@ ensures [absent-noop] !c08Live(st, addr) ==> len(j.entries) == n0
+//@ ensures [membership] c08Live(st, addr) ==> (c08AMember(c08Acct(st, addr).delegations, toValidator) <==> !delete)
+//@ ensures [sorted] c08Live(st, addr) ==> c08AcctOK(st, c08Acct(st, addr), addr) && !isnil(c08Acct(st, addr).delegations)
+//@ ensures [balance] old(c08Live(st, addr)) ==> big(obj.data.DelegationBalance) == old(big(obj.data.DelegationBalance)) + old(big(delta))
+//@ ensures [old-list-not-written] old(c08Live(st, addr)) ==> elems(s0) == old(elems(s0))
+//@ ensures [list-replaced-not-edited] old(c08Live(st, addr)) && !isnil(s0) ==> obj.delegations == s0 || (fresh(obj.delegations) && base(obj.delegations) != base(s0))
+//@ ensures [journalled] c08Live(st, addr) ==> (len(j.entries) == n0 + 1 || len(j.entries) == n0 + 2) && hastype(c08LastEntry(j), delegationBalanceChange) &&
+//@     c08LastBal(j).account != nil && *c08LastBal(j).account == addr
+//@ ensures [journal-ok] c08JournalOK(j) && (base(j.entries) == old(base(j.entries)) || fresh(j.entries))
